@@ -27,12 +27,13 @@ def impl_conn(path, auto):
 
 def gen_ast(rng):
     """(host, tcp port or None, hops [(port alias spelling list, port number, link)])"""
-    from pycomm3.cip.data_types import PortSegment
     host = rng.choice(["192.168.1.100", "10.0.0.1", "1.2.3.4", "plc-1", "my.host.example", "localhost"])
     port = rng.choice([None, None, None, 1, 2, 80, 44818, 65534, rng.randint(1, 65534)])
     hops = []
     by_num = {}
-    for name, num in PortSegment.port_segments.items():
+    # the aliases come from the documented grammar (refpath.DOCUMENTED_PORTS), not from the library's table: a name
+    # that silently disappears from, or appears in, `PortSegment.port_segments` must show up as a difference
+    for name, num in refpath.DOCUMENTED_PORTS.items():
         by_num.setdefault(num, []).append(name)
     for _ in range(rng.choice([0, 1, 1, 2, 3, 4])):
         num = rng.choice([1, 1, 2, 3, rng.randint(1, 14)])
@@ -136,6 +137,49 @@ def run(ctx, model):
             ask("single-edit", s, auto, out)
             if out.startswith("err") and out not in ("err request",):
                 ctx.violation("parse-raises-non-request-error", {"path": s, "auto_slot": auto}, out)
+    # every documented alias on its own, and the library's table must not know names outside the documented grammar
+    from pycomm3.cip.data_types import PortSegment
+    for name, num in refpath.DOCUMENTED_PORTS.items():
+        for link in (0, 5, "10.0.0.9"):
+            s = "10.0.0.1/%s/%s" % (name, link)
+            out, route = impl_conn(s, False)
+            ctx.case("alias-sweep", ("alias", name, link))
+            ask("alias-sweep", s, False, out)
+            want = "ok %s N %s" % (sx.name("10.0.0.1"), sx.hexb(refpath.ref_route([(num, link)])))
+            if out != want:
+                ctx.violation("grammar-path-wrong-result", {"path": s, "auto_slot": False}, "expected %s\n     got %s" % (want, out))
+    for name in sorted(set(PortSegment.port_segments) - set(refpath.DOCUMENTED_PORTS)):
+        ctx.case("alias-sweep", ("undocumented", name))
+        ctx.violation("not-rejected:unknown-port-name", {"path": "10.0.0.1/%s/1" % name, "auto_slot": False},
+                      "the port table knows %r, which the documented grammar does not" % name)
+
+    # the same shortcuts again AFTER a LogixDriver has been opened against a Micro800 in this process: open() strips the
+    # backplane hop from that driver's route and must not disturb what later paths parse to
+    try:
+        import logixgen as lg
+        from props import logix as lx
+        p = lg.gen_project(rng, n_templates=0, n_tags=2)
+        p["micro800"] = True
+        sess = lx.Session(model, p)
+        sess.close()
+        for s, hops2, auto in (("10.0.0.1", [(1, 0)], True), ("192.168.1.100", [(1, 0)], True), ("10.0.0.1/3", [(1, 3)], True),
+                               ("10.0.0.1/bp/0", [(1, 0)], False)):
+            out, route = impl_conn(s, auto)
+            ctx.case("after-micro800", ("am", s, auto))
+            ask("after-micro800", s, auto, out)
+            want = "ok %s N %s" % (sx.name(s.split("/")[0]), sx.hexb(refpath.ref_route(hops2)))
+            if out != want:
+                ctx.violation("shortcut-wrong-result:after-micro800-session", {"path": s, "auto_slot": auto}, "expected %s got %s" % (want, out))
+        from pycomm3 import LogixDriver, SLCDriver
+        for cls in (LogixDriver, SLCDriver):
+            d = cls("10.0.0.1")
+            got = bytes(PortSegment.encode(d._cfg["cip_path"][-1])) if d._cfg["cip_path"] else b""
+            ctx.case("after-micro800", ("ctor", cls.__name__))
+            if got != refpath.ref_port_segment(1, 0):
+                ctx.violation("shortcut-wrong-result:after-micro800-session", {"path": "10.0.0.1", "driver": cls.__name__},
+                              "%s('10.0.0.1') after a Micro800 session routes through %s" % (cls.__name__, got.hex() or "nothing"))
+    except ImportError:
+        pass
     outs = model.batch(lines)
     for (stream, path, auto, impl), out in zip(pend, outs):
         if core.norm_err(out) != core.norm_err(impl):
